@@ -1,5 +1,7 @@
 use crate::{
-    bytecompiler::{Access, BindingAccessOpcode, ByteCompiler, Label, Register, ToJsString},
+    bytecompiler::{
+        Access, BindingAccessOpcode, BindingKind, ByteCompiler, Label, Register, ToJsString,
+    },
     vm::opcode::BindingOpcode,
 };
 use boa_ast::{
@@ -129,7 +131,7 @@ impl ByteCompiler<'_> {
                 }
             };
 
-            let early_exit;
+            let mut early_exit;
 
             match access {
                 Access::Variable { name } => {
@@ -175,6 +177,17 @@ impl ByteCompiler<'_> {
                             &index,
                             dst,
                         );
+
+                        // The short-circuit path skips the assignment, so it must drop the
+                        // reference pushed by `GetNameAndLocator` itself.
+                        if !matches!(index, BindingKind::Local(_))
+                            && let Some(label) = early_exit.take()
+                        {
+                            let skip = compiler.jump();
+                            compiler.patch_jump(label);
+                            compiler.bytecode.emit_pop_locator();
+                            compiler.patch_jump(skip);
+                        }
                     }
                 }
                 Access::Property { access } => match access {
